@@ -1,8 +1,8 @@
-SPECIFICATION Spec
+SPECIFICATION EmitSpec
 CONSTANTS
-  MaxFrames = 3
+  MaxFrames = 2
   Lens <- L48
-  Classes <- ClsShort
+  Classes <- ClsSeg
   Cap = 12
   MaxDgram = 8
   Transports <- TStream
@@ -11,15 +11,14 @@ CONSTANTS
   WritePolicy = "write_all"
   UdpPolicy = "buffered"
   PongPolicy = "cancel_safe"
-  MaxErr = 0
+  MaxErr = 1
   MaxPending = 0
   MaxCancel = 0
   MaxTimeout = 0
   MaxWrites = 0
   WLens = {}
-  FrameOK <- FrameAny
+  FrameOK <- FrameReal
   KeepHist = TRUE
-VIEW View
-INVARIANTS TypeOK InOrder NoLoss FramingInv BufferInv PongsOk NoPartialPong WritesOk UnitsOk DiscOk EmitInv
-PROPERTIES ErrNoLoss
+INVARIANTS InOrder NoLoss FramingInv PongsOk EmitInv
+ACTION_CONSTRAINT StopWhenFinished
 CHECK_DEADLOCK FALSE
